@@ -60,6 +60,8 @@ Judge(e) ==
             ELSE IF e.second # e.first THEN "repeated-extraction-gives-different-results"
             ELSE "ok"
       [] e.ev = "race"     -> "data-race-in-library-code-between-independent-register-views"
+      \* the driver's watchdog: the case was still running (no event for a minute, or the heap beyond 6 GiB)
+      [] e.ev = "runaway" -> "library-call-does-not-return"
       [] OTHER             -> "unknown-event"
 
 Init == l = 1 /\ payload = <<>> /\ start = 0 /\ def = BE_HIGH
